@@ -171,6 +171,7 @@ func Gen(t *rapid.T) Case {
 		}
 	}
 	c.Method = rapid.SampledFrom(methods).Draw(t, "method")
+	c.NoBodyParam = rapid.IntRange(0, 3).Draw(t, "operation-without-body-parameter") == 0
 	if rapid.IntRange(0, 2).Draw(t, "sibling-operation") == 0 {
 		c.Sibling = genConsumes(t)
 		if c.Sibling == nil {
@@ -189,6 +190,7 @@ func Gen(t *rapid.T) Case {
 		if (q.Body == "wire-cl" || q.Body == "wire-cl0") && rapid.IntRange(0, 2).Draw(t, "padded-length") == 0 {
 			q.ZeroPad = rapid.IntRange(1, 3).Draw(t, "zero-pad")
 		}
+		q.Expect = rapid.IntRange(0, 4).Draw(t, "expect-continue") == 0
 		q.ViaSibling = c.Sibling != nil && rapid.Bool().Draw(t, "sent-to-the-sibling-first")
 		if rapid.IntRange(0, 2).Draw(t, "with-accept") == 0 {
 			q.Accept = rapid.SampledFrom(acceptValues).Draw(t, "accept")
@@ -204,6 +206,9 @@ var acceptValues = []string{"application/json", "*/*", "application/*", "text/pl
 func Classify(c Case) (bool, []string) {
 	nt := false
 	labels := []string{"method:" + c.Method}
+	if c.NoBodyParam {
+		labels = append(labels, "operation without body parameter")
+	}
 	list := effectiveList(c.Consumes, c.Default)
 	switch {
 	case c.Consumes == nil:
@@ -235,6 +240,12 @@ func Classify(c Case) (bool, []string) {
 		labels = append(labels, "body:"+q.Body)
 		if q.ZeroPad > 0 {
 			labels = append(labels, "content-length:leading-zeros")
+		}
+		if q.Expect {
+			labels = append(labels, "expect:100-continue")
+			if !q.carriesBody() {
+				labels = append(labels, "expect:100-continue without a body")
+			}
 		}
 		if q.ViaSibling && c.Sibling != nil {
 			labels = append(labels, "sent to the sibling operation of the path first")
